@@ -113,6 +113,26 @@ def check_visitor(ctx: Ctx, env, A: SqlAnalysis, langs, done: Dict[str, Dict[str
         else:
             ctx.ok("R2.no-placeholder", f"{vs}|{kind}", "handler present", nontrivial=False)
 
+    # ---- a string literal's SQL constant denotes the string itself: the only rewriting of the text is doubling its quotes ----------
+    for t in A.node_tmpls.get(("String", None)) or []:
+        if t.path.outcome != "return" or not t.is_string:
+            continue
+        for tok in t.st.toks:
+            if tok.kind != "string":
+                continue
+            for c in (tok.value or []):
+                if isinstance(c, str) or c[0] != "dyn":
+                    continue
+                o = raw_origin(c[1])
+                if o is None or o.attr != "val":
+                    continue
+                chain = [x for x in tuple(o.extra_transforms) + tuple(c[2]) if x and x[0] != "str"]
+                extra = [x for x in chain if not (x[0] == "replace" and x[1] == "'" and x[2] == "''")]
+                ctx.check(not extra, "R4.string-literal-faithful", f"{vs}|String",
+                          f"[{vs}] the text of a string literal is rewritten with {extra} before it is quoted (template `{t.text()[:80]}`): in SQL a string "
+                          "constant has no escape but the doubled quote, so the constant no longer denotes the string that was written", t.where,
+                          "name eq 'C:\\tmp'")
+
     # ---- the comparison a Compare node is rendered with is its own comparator's (IS / IS NOT only for eq / ne) -------------------
     for disc, allowed in COMPARATOR_SQL.items():
         for t in A.node_tmpls.get(("Compare", disc)) or []:
